@@ -83,9 +83,12 @@ void harness(void) {
 		size_t allocated = 0;
 		r = realloc_items(&items, sizeof(void *), &allocated, 4, (IN.flag >> 3) & 7);
 		V_ASSERT(r == 0 && allocated > ((IN.flag >> 3) & 7), "realloc_items: room for count + 1 items");
-		((void **)items)[(IN.flag >> 3) & 7] = NULL;	/* the slot the callers write next */
+		V_ASSERT(((void **)items)[(IN.flag >> 3) & 7] == NULL, "realloc_items: new memory zeroed");
+		((void **)items)[(IN.flag >> 3) & 7] = (void *)a;	/* the slot the callers write next */
 		r = realloc_items(&items, sizeof(void *), &allocated, 4, ((IN.flag >> 3) & 7) + 1);
 		V_ASSERT(r == 0 && allocated > ((IN.flag >> 3) & 7) + 1, "realloc_items: grows with count");
+		V_ASSERT(((void **)items)[(IN.flag >> 3) & 7] == (void *)a, "realloc_items: earlier items preserved");
+		V_ASSERT(((void **)items)[((IN.flag >> 3) & 7) + 1] == NULL, "realloc_items: next slot zeroed");
 		((void **)items)[((IN.flag >> 3) & 7) + 1] = NULL;
 		V_WITNESS("cmp/case/dup done");
 	}
